@@ -93,12 +93,13 @@ class Report:
         n_ob = len(self.obligations)
         n_dis = sum(1 for o in self.obligations if o['status'] in ('discharged', 'audited'))
         samples = []
-        seenr = set()
+        per_rule = {}
         for o in self.obligations:
-            if o['rule'] not in seenr or o['status'] not in ('discharged',):
-                seenr.add(o['rule'])
+            c = per_rule.get(o['rule'], 0)
+            if c < 3 or o['status'] not in ('discharged',):
+                per_rule[o['rule']] = c + 1
                 samples.append({k: o[k] for k in ('rule', 'key', 'where', 'status', 'why')})
-            if len(samples) >= 40:
+            if len(samples) >= 60:
                 break
         distinct = len({(o['rule'], o['key']) for o in self.obligations})
         cov = {
